@@ -87,6 +87,10 @@ class ModuleInstance(abc.ABC):
             index = i + x
             table.set_item(index, val)
 
+    def table_oob(self) -> None:
+        """Called by table.get and table.set when the index is too large"""
+        raise WasmTrapException("out of bounds table access")
+
     def elem_drop(self, elem_idx: int) -> None:
         """Drop an element segment: its size becomes 0."""
         logger.debug(f"elem_drop({elem_idx=})")
